@@ -227,6 +227,15 @@ func runC19() {
 			c.Inconclusive(fmt.Sprintf("cannot read replay witness: %v", err))
 			return
 		}
+		if sp.Pattern == "registry" {
+			var rs registrySpec
+			if err := c.ReadReplay(&rs); err != nil || rs.Topics == 0 {
+				c.Inconclusive(fmt.Sprintf("cannot read registry replay witness: %v", err))
+				return
+			}
+			registryReplay(c, rs)
+			return
+		}
 		// the schedule is not part of the witness: repeat the recorded run
 		reps := 10
 		if sp.Pattern == "micro" {
@@ -242,10 +251,21 @@ func runC19() {
 		return
 	}
 
-	n, microChunks := 60, 12
+	n, microChunks, registryChunks := 60, 12, 18
 	if !vlib.Quick(c) {
-		n, microChunks = 2000, 320
+		n, microChunks, registryChunks = 2000, 320, 320
 	}
+	registrySetup() // viper + log level, before any writer exists
+
+	// Registry sub-check first: it is independent of the writer runs below and
+	// must not be skipped when those stop early.
+	rlo, rhi := c.Slice(registryChunks)
+	for ch := rlo; ch < rhi; ch++ {
+		if !registryChunk(c, ch) {
+			break
+		}
+	}
+
 	// Every seed visits the 81 combinations (P x pattern x sink x close mode) in
 	// its own order; run i takes combination perm[i mod 81].
 	perm := rand.New(rand.NewSource(c.Seed*7777777 + 5)).Perm(81)
